@@ -236,3 +236,8 @@ contract("iface::ext.eliot.json._dumps_unicode", params=["o", "default"], defaul
          notes="_dumps_unicode (orjson): returns str or raises an Exception subclass (TypeError family) for values it cannot encode",
          modifies=["#CALLS"], ensures=[("recorded", "CALLS == old(CALLS) + [Ev('dumps', o, default, None, result)]")],
          raises=[{"cls": "Exception", "ensures": [("recorded", "CALLS == old(CALLS) + [Ev('dumps-failed', o, default, None, exc)]")]}])
+contract("iface::ext.orjson.dumps", params=["o", "default"], defaults={"default": None}, returns="bytes",
+         notes="orjson.dumps: returns bytes holding one JSON document or raises an Exception subclass (TypeError family); "
+               "fidelity is the assumed orjson contract (bounded differential check in drivers/c10.py)",
+         modifies=["#CALLS"], ensures=[("recorded", "CALLS == old(CALLS) + [Ev('dumps', o, default, None, result)]")],
+         raises=[{"cls": "Exception", "ensures": [("recorded", "CALLS == old(CALLS) + [Ev('dumps-failed', o, default, None, exc)]")]}])
